@@ -134,6 +134,8 @@ def cls_band(f):
     case = f["case"]
     c = gen.build_circuit(case["nq"], case["nb"], case["specs"])
     for p in case["passes"][:case["failed_step"]]:
+        if p[0] == "reparse" and not printable(c):
+            continue        # as in run_sequence
         try:
             implrun.apply_pass(c, p)
         except Exception:  # noqa: BLE001
@@ -149,7 +151,7 @@ def cls_band(f):
             check_gate_replacement(s, d.decompose(s))
         except Exception:  # noqa: BLE001
             dist, _ = c01._proposal_distance(s, dec)
-            return dist is not None and dist <= 3e-7
+            return dist is not None and dist <= c01.BAND_RESIDUAL
     return False
 
 
